@@ -167,7 +167,7 @@ def _mask(m):
     return r
 
 
-def saturate(eqs, targets, rounds=2, maxdeg=6, max_lemmas=40000, ineqs=()):
+def saturate(eqs, targets, rounds=2, maxdeg=6, max_lemmas=40000, ineqs=(), pairs=None):
     """goal-directed saturation.
     eqs: list[Poly] (each == 0); targets: set of monomials.  Returns list of lemma polys (== 0)."""
     by_var = {}
@@ -213,6 +213,8 @@ def saturate(eqs, targets, rounds=2, maxdeg=6, max_lemmas=40000, ineqs=()):
                     if lem.degree() > maxdeg:
                         continue
                     lemmas.append(lem)
+                    if pairs is not None:
+                        pairs.append((hi, q))
                     for mm in lem.t:
                         if mm not in known:
                             known.add(mm)
@@ -225,7 +227,7 @@ def saturate(eqs, targets, rounds=2, maxdeg=6, max_lemmas=40000, ineqs=()):
     return lemmas
 
 
-def prove(ctx: Ctx, goals, rounds=2, maxdeg=6, timeout_ms=20000, extra=(), products=False):
+def prove(ctx: Ctx, goals, rounds=2, maxdeg=6, timeout_ms=20000, extra=(), products=False, reduction=True, max_lemmas=40000, fallback=True):
     """decide every goal; sets goal.status in {'proved','open'}"""
     t0 = time.time()
     eqs = [a.p for a in ctx.assumptions if a.kind == "eq"]
@@ -250,12 +252,26 @@ def prove(ctx: Ctx, goals, rounds=2, maxdeg=6, timeout_ms=20000, extra=(), produ
             todo.append(g)
     if not todo:
         return glist
+    if reduction:
+        prove_eq_by_reduction(ctx, todo, timeout_ms=timeout_ms, extra=extra, rounds=rounds, maxdeg=maxdeg)
+        todo = [g for g in todo if g.status != "proved"]
+        if not todo:
+            return glist
+        if not fallback:
+            for g in todo:
+                g.status = "open"
+            return glist
+    if ctx.options.get("deadline") and time.time() > ctx.options["deadline"]:
+        for g in todo:
+            g.status = "open"
+            g.detail = g.detail or "time budget of the configuration exhausted"
+        return glist
     targets = set()
     for g in todo:
         targets.update(g.p.t.keys())
     # the degree bound is relative to the goals: multipliers may raise the degree by `maxdeg - 4` at most
     maxdeg = max(g.p.degree() for g in todo) + max(2, maxdeg - 4)
-    lemmas = saturate(eqs, targets, rounds=rounds, maxdeg=maxdeg)
+    lemmas = saturate(eqs, targets, rounds=rounds, maxdeg=maxdeg, max_lemmas=max_lemmas)
     prod_lemmas = []
     if products:
         # products of pairs of non-negative facts (for ordering goals)
@@ -319,3 +335,227 @@ def smt2_sample(ctx: Ctx, g: Goal, max_assumptions=6) -> str:
         lines.append(f"(path {d})")
     lines.append(f"(goal {g.name}: {g.p.fmt(nm, 8)} {g.kind} 0)")
     return "\n".join(lines)
+
+
+# ---------------------------------------------------------------------------------------
+# lemma selection by greedy polynomial reduction
+#
+# For an equality goal g == 0 the multipliers (q, h) of a certificate  g = sum c * q * h  are searched
+# by rewriting g with the assumption equations (each step must shrink the polynomial), unfolding alias
+# definitions when stuck.  The search is only a heuristic that SELECTS lemmas; the verdict still comes
+# from the solver: the selected products q*h are handed to z3 (QF_LRA over monomials) together with the
+# negated goal, and only `unsat` counts as proved.
+
+
+def _totdeg(p):
+    return sum(mono_degree(m) for m in p.t)
+
+
+class Reducer:
+    def __init__(self, ctx: Ctx, extra=()):
+        self.ctx = ctx
+        self.defs = {}  # alias var index -> (Poly definition, assumption poly)
+        self.rules = []  # (h_normalised, [(m, mask, coeff)], derivation [Poly])
+        self.unit = {}  # var -> assumption poly v^2 - 1   (sign-like variables)
+        eqs = [a for a in ctx.assumptions if a.kind == "eq"] + [a for a in ctx.path_assumptions() if a.kind == "eq"] + [a for a in extra if a.kind == "eq"]
+        rest = []
+        for a in eqs:
+            h = a.p
+            if h.has_I():
+                continue
+            if len(h.t) == 2 and ONE in h.t:
+                (m,) = [mm for mm in h.t if mm]
+                if len(m) == 1 and m[0][1] == 2 and h.t[m] == -h.t[ONE]:
+                    self.unit[m[0][0]] = h.scale(1 / h.t[m])
+                    continue
+            rest.append(a)
+        for a in rest:
+            h = a.p
+            if a.tag.startswith("def-alias"):
+                done = False
+                for m, c in h.t.items():
+                    if len(m) == 1 and m[0][1] == 1 and c == 1 and ctx.vars[m[0][0]].name.startswith("al"):
+                        self.defs[m[0][0]] = (Poly({mm: -cc for mm, cc in h.t.items() if mm != m}), h)
+                        done = True
+                        break
+                if done:
+                    continue
+            hn, der = self.norm_units(h)
+            if not hn.t:
+                continue
+            mons = [(m, _mask(m), c) for m, c in hn.t.items() if m]
+            if mons:
+                self.rules.append((hn, mons, [h] + der))
+        self.by_var = {}
+        for ri, (h, mons, der) in enumerate(self.rules):
+            for v in h.vars():
+                self.by_var.setdefault(v, []).append(ri)
+
+    def norm_units(self, p: Poly):
+        """rewrite v^e -> v^(e mod 2) for sign-like variables; returns (p', lemmas) with p' = p - sum(lemmas)"""
+        if not self.unit:
+            return p, []
+        lemmas = []
+        changed = True
+        while changed:
+            changed = False
+            for t, c in list(p.t.items()):
+                for v, e in t:
+                    if v in self.unit and (e >= 2 or e <= -1):
+                        d = dict(t)
+                        if e >= 2:
+                            d[v] = e - 2
+                        else:
+                            d[v] = e  # multiply (v^2 - 1) by v^e: v^(e+2) - v^e
+                        if d[v] == 0:
+                            del d[v]
+                        q = tuple(sorted(d.items()))
+                        u = self.unit[v]  # v^2 - 1
+                        lem = u.mul_mono(q, c if e >= 2 else -c)
+                        p = p - lem
+                        lemmas.append(lem)
+                        changed = True
+                        break
+                if changed:
+                    break
+        return p, lemmas
+
+    def reduce(self, p: Poly, max_steps=4000, max_terms=6000, unfold_levels=5, max_seconds=15.0):
+        """-> (remainder, lemmas used [Poly == 0])"""
+        used = []
+        steps = 0
+        t_start = time.time()
+        p, l0 = self.norm_units(p)
+        used += l0
+        for level in range(unfold_levels + 1):
+            progress = True
+            last_rule = None
+            while progress and p.t and steps < max_steps:
+                progress = False
+                if time.time() - t_start > max_seconds:
+                    return p, used
+                pv = p.vars()
+                cand = set()
+                for v in pv:
+                    cand.update(self.by_var.get(v, ()))
+                cand = sorted(cand)
+                if last_rule is not None and last_rule in cand:
+                    cand.remove(last_rule)
+                    cand.insert(0, last_rule)
+                pm = [(t, _mask(t)) for t in p.t]
+                best = None
+                for ri in cand:
+                    h, mons, der = self.rules[ri]
+                    for (m, mk, cm) in mons:
+                        for t, mt in pm:
+                            if mk & ~mt:
+                                continue
+                            q = mono_divides(m, t)
+                            if q is None:
+                                continue
+                            if q and q[0][0] == I_VAR:
+                                continue
+                            c = p.t[t] / cm
+                            lem = h.mul_mono(q, c)
+                            p2 = p - lem
+                            gain = len(p.t) - len(p2.t)
+                            if gain == 0 and len(mons) <= 2:
+                                dd = _totdeg(p) - _totdeg(p2)
+                                gain = 0.5 if dd > 0 else 0
+                            if gain > 0 and (best is None or gain > best[0]):
+                                best = (gain, p2, q, ri)
+                                if gain >= len(mons) - 1:
+                                    break
+                        if best is not None and best[0] >= len(mons) - 1:
+                            break
+                    if best is not None and best[0] >= 1:
+                        break
+                if best is not None:
+                    _, p, q, ri = best
+                    for d in self.rules[ri][2]:
+                        used.append(d.mul_mono(q))
+                    p, l1 = self.norm_units(p)
+                    used += l1
+                    last_rule = ri
+                    steps += 1
+                    progress = True
+            if not p.t:
+                break
+            al = [v for v in p.vars() if v in self.defs]
+            if not al or level == unfold_levels:
+                break
+            for v in al:
+                P, h = self.defs[v]
+                guard = 0
+                changed = True
+                while changed and guard < 6:
+                    changed = False
+                    guard += 1
+                    for t, c in list(p.t.items()):
+                        d = dict(t)
+                        e = d.get(v)
+                        if e is None or e < 1:
+                            continue
+                        d[v] = e - 1
+                        if d[v] == 0:
+                            del d[v]
+                        q = tuple(sorted(d.items()))
+                        lem = h.mul_mono(q)
+                        p = p - lem.scale(c)
+                        used.append(lem)
+                        changed = True
+                        if len(p.t) > max_terms:
+                            return p, used
+            p, l2 = self.norm_units(p)
+            used += l2
+        return p, used
+
+
+def prove_eq_by_reduction(ctx: Ctx, goals, timeout_ms=20000, extra=(), rounds=2, maxdeg=6):
+    """try to prove equality goals with reduction-selected lemmas; leaves unproved goals untouched"""
+    R = ctx.caches.get("reducer")
+    sig = (len(ctx.assumptions), len(ctx.path))
+    if R is None or R[0] != sig:
+        R = (sig, Reducer(ctx, extra))
+        ctx.caches["reducer"] = R
+    red = R[1]
+    rule_polys = [r[0] for r in red.rules] + list(red.unit.values())
+    rule_der = [r[2] for r in red.rules] + [[u] for u in red.unit.values()]
+    deadline = ctx.options.get("deadline")
+    for g in goals:
+        if g.kind != "eq" or g.status == "proved" or g.p.has_I():
+            continue
+        if deadline and time.time() > deadline:
+            g.detail = "time budget of the configuration exhausted before this goal was attempted"
+            continue
+        rem, used = red.reduce(g.p)
+        extra_lemmas = []
+        if rem.t:
+            if len(rem.t) > 400:
+                g.detail = f"reduction stuck with {len(rem.t)} terms after {len(used)} steps"
+                continue
+            pairs = []
+            md = rem.degree() + max(2, maxdeg - 4)
+            saturate(rule_polys, set(rem.t.keys()), rounds=rounds, maxdeg=md, max_lemmas=6000, pairs=pairs)
+            for hi, q in pairs:
+                for d in rule_der[hi]:
+                    extra_lemmas.append(d.mul_mono(q))
+        L = Lin(ctx, timeout_ms=timeout_ms)
+        for lem in used:
+            L.s.add(L.atom("eq", lem))
+        for lem in extra_lemmas:
+            L.s.add(L.atom("eq", lem))
+        L.s.add(L.atom("ne", g.p))
+        t1 = time.time()
+        r = str(L.s.check())
+        dt = time.time() - t1
+        STATS["queries"] += 1
+        STATS["solver_time"] += dt
+        STATS["lemmas"] += len(used) + len(extra_lemmas)
+        if r == "unsat":
+            g.status = "proved"
+            g.detail = f"LIN unsat ({len(used)} reduction-selected + {len(extra_lemmas)} saturation lemmas, {len(L.mv)} atoms, {dt:.2f}s)"
+        else:
+            if r == "unknown":
+                STATS["unknown"] += 1
+            g.detail = f"reduction left {len(rem.t)} terms; LIN {r} with {len(used)}+{len(extra_lemmas)} lemmas"
